@@ -327,6 +327,35 @@ class Check(BaseCheck):
                 rec.nt(('shared-handler', evname, how))
                 if trace != expect:
                     rec.violation('C03/subscription-of-a-shared-handler-on-one-parser-affects-another', event=evname, how=how, calls_per_evaluation=trace, expected=expect)
+        # a listener that edits the argument list it is shown (appends, clears, inserts) edits ITS call's arguments only: the next call
+        # on that parser starts clean, and no other parser ever notices
+        import math
+        for edit in ('append', 'insert', 'clear-then-append', 'extend'):
+            A, B = hotxlfp.Parser(), hotxlfp.Parser()
+
+            def meddle(name, args, setter, _edit=edit):
+                if _edit == 'append':
+                    args.append(99)
+                elif _edit == 'insert':
+                    args.insert(0, 'junk')
+                elif _edit == 'extend':
+                    args.extend([1, 2, 3])
+                else:
+                    del args[:]
+                    args.append(None)
+            solo_b = [outcome(B.parse(f)) for f in ('PI()', 'TRUE()', 'NA()', 'SUM(1,2)', 'PI()+1')]
+            A.on('callFunction', meddle)
+            first = [outcome(A.parse(f)) for f in ('PI()', 'TRUE()', 'SUM(1,2)')]
+            A.off('callFunction')
+            after_a = [outcome(A.parse(f)) for f in ('PI()', 'TRUE()', 'NA()', 'SUM(1,2)', 'PI()+1')]
+            after_b = [outcome(B.parse(f)) for f in ('PI()', 'TRUE()', 'NA()', 'SUM(1,2)', 'PI()+1')]
+            C = hotxlfp.Parser()
+            fresh = [outcome(C.parse(f)) for f in ('PI()', 'TRUE()', 'NA()', 'SUM(1,2)', 'PI()+1')]
+            rec.case()
+            rec.nt(('meddling-listener', edit))
+            if after_b != solo_b or fresh != solo_b or after_a != solo_b:
+                rec.violation('C03/argument-list-edited-by-one-call\'s-listener-reaches-other-calls', edit=edit, other_parser_before=solo_b, other_parser_after=after_b, new_parser=fresh,
+                              same_parser_later=after_a, while_meddling=first)
         # a custom function registered under a built-in name on ONE parser: that parser gets its own function, every other
         # parser keeps the built-in, in whatever order they are used (sequentially and nested)
         hotxlfp = env.load()
